@@ -258,6 +258,13 @@ const PLANTS: &[(&str, &str)] = &[
     ("unicode_class", "[a\\p{NoSuchProperty}]"),
     ("unicode_class", "[^\\p{sc=Greek}b]"),
     ("unicode_class", "[a-c&&\\pX]"),
+    // set operations with an empty operand: the other operand must be examined all the same
+    ("unicode_class", "[&&\\p{Greek}]"),
+    ("unicode_class", "[\\p{sc=Latin}&&]"),
+    ("unicode_class", "[^&&\\pX]"),
+    ("unicode_class", "[a[&&\\p{NoSuchProperty}]]"),
+    ("unicode_class", "[--\\p{Lu}]"),
+    ("unicode_class", "[\\pX~~]"),
     ("syntax_error", "("),
     ("syntax_error", ")"),
     ("syntax_error", "[a"),
